@@ -75,6 +75,12 @@ class HookedArmV6(ArmV6):
         self.hints = []
         self.barriers = []          # (domain, types) of every DSB the core asked the memory system for: part of the compared state
         self.preloads = []          # (kind, address) of every preload hint handed to the memory system: likewise
+        self.svcalls = []           # immediates of the supervisor calls made (CallSupervisor): likewise
+
+    def call_supervisor(self, immediate):
+        # an embedder's front end for supervisor calls (semihosting): it sees every call the core makes - and only those
+        self.svcalls.append(immediate)
+        return super().call_supervisor(immediate)
 
     def mark_exclusive_local(self, pa, pid, size):
         self.mon = (pa.physicaladdress, size)
@@ -241,6 +247,8 @@ def snapshot(cpu, with_mem=True):
         out['barriers'] = tuple(cpu.barriers)
     if hasattr(cpu, 'preloads'):
         out['preloads'] = tuple(cpu.preloads)
+    if hasattr(cpu, 'svcalls'):
+        out['svcalls'] = tuple(cpu.svcalls)
     if hasattr(cpu, 'mon'):
         out['excl'] = tuple(cpu.mon) if cpu.mon else None        # local exclusive monitor of the hooked flavour
     out['wfe'] = cpu.is_wait_for_event
@@ -290,6 +298,9 @@ def apply_state(cpu, state):
         elif k == 'preloads':
             if hasattr(cpu, 'preloads'):
                 cpu.preloads = [tuple(x) for x in v]
+        elif k == 'svcalls':
+            if hasattr(cpu, 'svcalls'):
+                cpu.svcalls = list(v)
         elif k == 'excl':
             if hasattr(cpu, 'mon'):
                 cpu.mon = tuple(v) if v else None
